@@ -16,7 +16,12 @@ func vSnapNode(L int) (*Raft, *vAbsLog, uint64, uint64) {
 	r.commitIndex = vU64("commitIndex")
 	vAssume(r.commitIndex <= r.lastLogIndex && r.commitIndex >= r.snaps.index && r.commitIndex >= a.base)
 	r.fsm.index = r.commitIndex
-	r.fsm.term = vTermAt(a, a.base, r.commitIndex)
+	// case-split the applied position so that the applied term is a plain variable, not an ite-chain
+	if off := vConcreteInt(int(r.commitIndex - a.base)); off == 0 {
+		r.fsm.term = vBaseTerm
+	} else {
+		r.fsm.term = vEntries[off-1].term
+	}
 	// configurations: ci <= commitIndex; li is either ci (latest is committed) or the index of a config entry above commitIndex
 	ci := vU64("cfg.committed.index")
 	vAssume(ci >= 1 && ci <= r.commitIndex)
